@@ -7,20 +7,32 @@ CFG = {
     "trivial_prefix": ("-",),
     "rule": "real Vaxis sessions on the fake console for subsets of the capabilities that gate start-up/shutdown "
             "(kittyKeyboard, sixel, unicodeCore, explicitWidth, colorTheme, inBandResize, osc176, sync) x DisableMouse "
-            "(a rotating quarter of the 512 configurations in quick, all 512 in thorough) x session shapes "
-            "(start-up+Close; frames, Suspend/Resume cycles with a cursor request pending, Close, second Close; frames then Close triggered by a kill "
-            "signal on the input goroutine; Close while suspended; input-goroutine panic in a child process); non-trivial = a startup/suspend/resume/close line; distinct by case op list",
+            "(a rotating quarter of the 512 configurations in quick, all 512 in thorough) x random kitty keyboard masks (default or 1..31) x session shapes "
+            "(start-up+Close; frames, SetAppID with ids incl. the original/empty/';'/non-ASCII, mouse shapes, titles, Suspend/Resume cycles with a cursor request pending, Close, second Close; "
+            "frames then Close triggered by a kill signal on the input goroutine; Close while suspended; SetAppID then input-goroutine panic in a child process); "
+            "the oracle compares with the fake terminal's own original cursor style / application id, not with what Vaxis stored; "
+            "non-trivial = a startup/setappid/suspend/resume/close line; distinct by case op list",
     "trusted_base": ["Spec.ModeTerm (mode terminal: ignores private modes it does not implement), Spec.Tokenize",
-                     "writer prologue/epilogue model shared with C01 (tied by the C01 correspondence)"],
-    "level_text": "balanced / resume_reestablishes are proved by kernel evaluation (decide +kernel) over ALL 2^9 assignments of the guard "
-                  "variables x 4 cursor-flag combinations of the statement lists regenerated from vaxis.go on every run (Gen/Modes.lean): "
-                  "every mode, the kitty keyboard stack, keypad mode, alternate screen, cursor visibility/shape, pointer, app id, pen, hyperlink "
-                  "and sync are back at their prior values after Close and after Suspend; Resume re-establishes the start-up modes; a second "
-                  "Close writes nothing. The token sequences of the model are compared with the real bytes of start-up/Suspend/Resume/Close, "
-                  "and the real bytes are run through the mode terminal.",
-    "level_note": "Prior values: modes Vaxis never queries are assumed reset before start-up; a terminal ignores private modes it did not "
-                  "advertise. Run-time values (kitty flags, user cursor style, app id) are representative constants in the theorems and real "
-                  "values in the correspondence. Signal path (Close on the input goroutine) and panic path (an injected malformed report makes "
-                  "handleSequence panic in a child process; recover → Close → re-panic; the mirrored console bytes are judged) are exercised dynamically. Real-time and OS behaviour (signals, console reset) not modelled.",
+                     "writer prologue/epilogue model shared with C01 (tied by the C01 correspondence)",
+                     "direct token mapping of the three run-time writes (CSI > flags u, CSI n SP q, OSC 176 ; id ST): agreement with the lexer proved for flags 0..31, styles 0..6 "
+                     "and sample ids (kittyPush_lexes, userStyle_lexes, appIdRestore_lexes), real values by the correspondence run"],
+    "level_text": "balanced is proved for ALL run-time values and ALL sessions: for every one of the 2^9 assignments of the guard variables, every kitty flags value, user cursor style, "
+                  "prior kitty stack depth (Nat), every application id except the one-character id '?' (which OSC 176 reads as the query: unsettable_id_is_query), and every list of operations "
+                  "(frames with any renderer output - renderFrame_ok -, cursor requests with any position/style/visibility, SetAppID with any id, Suspend, Resume, in any number and order) "
+                  "followed by shutdown, every mode, the kitty keyboard stack, keypad mode, alternate screen, cursor visibility/shape, pointer, application id, pen, hyperlink and sync are back at "
+                  "their prior values. Method: the lifecycle interpreter (over the statement lists regenerated from vaxis.go) emits tokens with named holes for run-time values and never sees a value; "
+                  "a symbolic mode terminal is evaluated by the kernel (decide +kernel, 16 chunk modules) for every guard assignment x cursor-visibility flags from a running state in which everything "
+                  "frames may change is unknown; runS_sound (proved for every value) lifts the verdicts to all concrete values (prior value and set value are distinct symbols, so coinciding values are covered "
+                  "and cannot make the statement true for the wrong reason); induction over the operation list gives all sessions. resume_reestablishes: while suspended everything is restored, while "
+                  "running the mode table / screen / kitty depth / keypad mode are exactly those of start-up. close_idempotent (every state), close_twice, close_while_suspended_writes_nothing (every "
+                  "session). Signal and panic paths are model statements: the skeleton of openTty's goroutine is regenerated (facts_inputLoop) and signal_path_is_close / panic_path_is_close prove that "
+                  "both write exactly what Close writes from every state. facts_savedValueWrites pins that appIDLast / userCursorStyle / kittyFlags are written only by start-up code. "
+                  "The token sequences of the model are compared with the real bytes of start-up/SetAppID/Suspend/Resume/Close, and the real bytes are run through the mode terminal.",
+    "level_note": "Prior values: modes Vaxis never queries are assumed reset before start-up, the pointer shape 'text', the cursor style the terminal reports (0 if it does not answer) and the id of its "
+                  "OSC 176 reply are the prior ones; a terminal ignores private modes it did not advertise. Guard assignments are enumerated (m < 512), not quantified as functions. "
+                  "Sessions: while suspended the application only resumes or shuts down (Resume without Suspend / rendering while suspended are skipped). "
+                  "Validated by correspondence only: that the model's token lists are the real bytes (incl. the writer prologue/epilogue and the direct-mapped run-time writes at real values); the signal path "
+                  "(Close on the input goroutine) and panic path (an injected malformed report makes handleSequence panic in a child process; recover -> Close -> re-panic) are also exercised dynamically. "
+                  "Which goroutine runs Close and whether it can block is C10's LTS. Real-time and OS behaviour (signals, console reset) not modelled.",
     "assumptions": ["the fake console answers DA1 at once (Suspend's provoke-a-reply dance terminates)"],
 }
